@@ -149,6 +149,36 @@ func c06Trees(quick bool) []*treeSpec {
 	}
 	trees = append(trees, &treeSpec{Tag: "names100x3", Dirs: []string{"sub-" + strings.Repeat("d", 96)}, Files: map[string][]byte{strings.Repeat("p", 100): defaultContent("p", 3), strings.Repeat("q", 100): defaultContent("q", 4),
 		"sub-" + strings.Repeat("d", 96) + "/" + strings.Repeat("r", 64): defaultContent("r", 5)}})
+	// many directories: the path tables (one record per directory; the Joliet ones carry the full UCS-2 names and are larger than
+	// the primary ones) span several blocks, flat and nested, with short and with 48-character names
+	manyDirs := func(tag string, n int, name func(i int) string, nestEvery int) *treeSpec {
+		t := &treeSpec{Tag: tag, Files: map[string][]byte{}}
+		parent := ""
+		for i := 0; i < n; i++ {
+			p := name(i)
+			if nestEvery > 0 {
+				if i%nestEvery == 0 {
+					parent = p
+				} else {
+					p = parent + "/" + p
+				}
+			}
+			t.Dirs = append(t.Dirs, p)
+			if i%3 != 1 {
+				t.Files[p+"/in.txt"] = defaultContent(fmt.Sprint("md", i), i%9)
+			}
+		}
+		return t
+	}
+	short := func(i int) string { return fmt.Sprintf("d%03d", i) }
+	long48 := func(i int) string { return fmt.Sprintf("%02d-%s", i, strings.Repeat(string(rune('a'+i%26)), 45)) }
+	trees = append(trees, manyDirs("manydirs", 24, long48, 0), manyDirs("manydirs", 100, short, 0), manyDirs("manydirs", 144, short, 12))
+	if !quick {
+		for _, n := range []int{90, 127, 128, 129, 171, 200, 256} {
+			trees = append(trees, manyDirs("manydirs", n, short, 0))
+		}
+		trees = append(trees, manyDirs("manydirs", 60, long48, 6), manyDirs("manydirs", 43, long48, 0))
+	}
 	return trees
 }
 
